@@ -1,6 +1,8 @@
 NOT_APPLICABLE = {}
-TRUST = ("Trusted: TLC, CommunityModules Json, rustc/cargo, serde_json, the harness' proj/unproj/reader (cross-checked against the "
-         "spec's Parse on every wire), my transcription of RFC 8152 / IANA into spec/. Exhaustive only inside the stated palettes.")
+TRUST = ("Trusted: TLC, CommunityModules Json, rustc/cargo, serde_json, the harness' proj/unproj/reader (cross-checked: every wire the "
+         "spec emits must parse with ciborium to the spec's item, else it is counted as parser_model_deviation and not judged), my "
+         "transcription of RFC 8152 / IANA into spec/. Exhaustive only inside the stated palettes (DESIGN.md section 9).")
+MC = "TLA+ spec model-checked by TLC (Design |= Prop on every state); every TLC state replayed on the real crate and judged by the Prop layer"
 TEXT = {
     "C08": {
         "level": "TLC enumerates every header map over a ~150-entry palette (all standard labels x valid/each-rule-violated values, "
@@ -9,7 +11,58 @@ TEXT = {
                  "and the real crate is run on the same map (value API + two wire encodings, three embedding positions) and judged "
                  "against the Prop layer. Model checking is the right level: the property is an iff over a rule system whose "
                  "interactions are pairwise/triple.",
-        "note": TRUST,
-        "technique": "TLA+ spec (Header.tla) model-checked by TLC; every TLC state replayed on the crate (spec->impl conformance)",
-    },
+        "note": TRUST, "technique": MC + " (spec/Header.tla, spec/mc/MC_HeaderDecode.tla)"},
+    "C09": {
+        "level": "TLC enumerates every array of arity 0..5 (quick) / 0..7 with wider palettes (thorough) over per-slot palettes of every CBOR "
+                 "kind (valid/invalid/trailing-byte/non-map protected bstr, valid/invalid/duplicate maps, bstr/nil/wrong payloads, nested "
+                 "signature and recipient arrays to depth 3) and decodes EACH array as all eight structure types; invariants: accepted iff "
+                 "the CDDL predicate Msg_WF, fields = Msg_ValueOf; the crate is run on every array as every type. Empty nested arrays are "
+                 "emitted unjudged (the property leaves them open).",
+        "note": TRUST, "technique": MC + " (spec/Msg.tla, spec/mc/MC_MsgDecode.tla)"},
+    "C10": {
+        "level": "TLC enumerates every COSE_Key map up to 2/3 entries over a palette with kty present/absent/reserved/unregistered/text at "
+                 "every position, key_ops arrays with registered/unregistered/repeated/text entries, every other label class, and key sets "
+                 "up to 3/4 elements with a bad element at each position; iff with Key_WF / KeySet_WF, fields = Key_ValueOf (operations "
+                 "compared as a set); replayed on the crate.",
+        "note": TRUST, "technique": MC + " (spec/Key.tla, spec/mc/MC_KeyDecode.tla)"},
+    "C12": {
+        "level": "decode: TLC enumerates (map kind, duplicated label of every class, map size <= 3/4, position pair, pair of byte encodings of "
+                 "the two keys incl. non-minimal widths, bignum form and indefinite text, 15 nesting positions) with the duplicate as the "
+                 "only fault (control vector: dropping the second occurrence is accepted) and checks the Design reports DuplicateMapKey; the "
+                 "crate must report exactly that error kind. encode: in-memory headers/keys/claims sets whose extras clash with each other "
+                 "or with a populated typed field, in 9 holders; the crate must fail, and EVERY encode vector of every check is scanned for "
+                 "maps with repeated keys at all nesting levels.",
+        "note": TRUST + " Known finding F4 (ClaimsSet encode) is listed in KNOWN_FINDINGS.txt and matched by an input tag.",
+        "technique": MC + " (spec/mc/MC_Dup.tla)"},
+    "C14": {
+        "level": "TLC enumerates bodies (accepted by the type / by another type of the same shape / by none) x tag sequences of length 0/1/2 "
+                 "x 14 tag numbers x every tag-head width and checks: tagged decode accepts iff registered tag applied once to an accepted "
+                 "body, same value; untagged decode rejects every tagged item; exclusivity across the six types; to_tagged_vec = head || "
+                 "to_vec. Every item is decoded tagged and untagged as all six types on the crate.",
+        "note": TRUST, "technique": MC + " (spec/mc/MC_Tag.tla); tag numbers come from spec/Iana.tla, not from the crate"},
+    "C15": {
+        "level": "TLC enumerates 54 boundary integers x every head width that holds them + two bignum forms x 24 positions (labels, "
+                 "algorithm in header/key/KDF, key type, content format, crit, key op, nonce, three timestamps, key data length, bare label "
+                 "types, and three uninterpreted positions) and checks: all encodings denote the same integer (Parse), in-range => exact "
+                 "value, out-of-range => OutOfRangeIntegerValue (kind pinned), uninterpreted => preserved, re-encoding gives the integer back.",
+        "note": TRUST, "technique": MC + " (spec/mc/MC_Int.tla); integers are (sign, big-endian magnitude) in the spec, no 32-bit arithmetic"},
+    "C16": {
+        "level": "TLC checks on all pairs and triples of a 39-label palette (and 4 registry-typed sets) that the Design of Ord (sign-aware "
+                 "nine-way match) equals bytewise order of the deterministic encodings, cmp_canonical equals length-first order, "
+                 "EQ <=> equal, antisymmetry, transitivity; the crate's cmp/partial_cmp/==/cmp_canonical, sort(), sort_by and BTreeSet are run "
+                 "on every pair / list and compared with the order the spec computes from Enc.",
+        "note": TRUST, "technique": MC + " (spec/Label.tla, spec/mc/MC_LabelOrder.tla)"},
+    "C17": {
+        "level": "spec/Iana.tla is an independent transcription of the sixteen registries (TLC ASSUMEs injectivity); the harness walks every "
+                 "name and every integer of [-70000, 70000] plus 64-bit extremes through from_i64/to_i64/is_private and compares with the "
+                 "table BY VARIANT IDENTITY (finite, exhaustive); TLC enumerates label classification for every assigned value, neighbours, "
+                 "private boundary and extremes in both registry label types.",
+        "note": TRUST + " A variant unknown to the harness table (upstream addition) is not judged.",
+        "technique": "TLA+ registry tables + TLC classification instance (spec/mc/MC_Classify.tla); exhaustive window walk on the crate"},
+    "C18": {
+        "level": "TLC enumerates claims maps up to 2/3 entries (every claim key class x values of every kind, whole/fractional/extreme "
+                 "timestamps) and KDF-context arrays of arity 0..5/7 plus PartyInfo / SuppPubInfo sub-arrays of arity 0..4 with every slot "
+                 "kind; iff with Claims_WF / Kdf_WF, fields = *_ValueOf, decode(encode(x)) = x; replayed on the crate (private KDF fields "
+                 "observed through to_vec read by the independent reader).",
+        "note": TRUST, "technique": MC + " (spec/Cwt.tla, spec/Kdf.tla, spec/mc/MC_Cwt.tla, MC_Kdf.tla)"},
 }
